@@ -388,3 +388,141 @@ def response_framing_by_headers(chk, prog, rid, cfg=None):
                 chk.ob(rid, b.path, "every HTTP version token of the status line is accepted", False,
                        f"the version token is compared with {lits}: a valid answer in another HTTP/1.x version is rejected", where=b.where(blk), cfg=cfg)
     chk.ob(rid, fn, f"{n} branch(es) of the response parser examined: none on the status code or on a literal version token", True, cfg=cfg)
+
+
+def every_header_line_stored(chk, prog, rid, fn, cfg=None):
+    """Every header line the parser reads becomes an entry of the header list: a cycle of the header loop (from one read of a line to the next)
+    passes a `Headers::add` of the parsed line.  A cap or filter that reads a line and goes on without storing it hides that field from
+    everything downstream (the forwarded chain, Content-Length, cookies) while the request is still served."""
+    b = prog.impl_body(fn) if hasattr(prog, "impl_body") else prog.bodies.get(fn)
+    chk.floor(f"{fn.rsplit('::', 1)[-1]} body [{cfg}]" if cfg else fn, 1 if b is not None else 0, 1)
+    if b is None:
+        return
+    adds = []
+    for blk, t in b.calls_to(r"http::headers::Headers::add$"):
+        if len(t["args"]) < 3:
+            continue
+        nd = describe(prog, b, t["args"][1])
+        if nd[0] == "variant":
+            continue        # a header the parser adds itself
+        adds.append(blk)
+    reads = [blk for blk, t in b.calls_to(r"(BufRead|AsyncBufReadExt)(<[^>]*>)?>?::(read_line|read_until)$|::read_line$|::read_until$")]
+    loop_reads = [r for r in reads if r in b.reachable(b.succs(r))]
+    chk.floor(f"header-line reads inside the header loop [{cfg}]", len(loop_reads), 1)
+    chk.floor(f"Headers::add of a parsed line [{cfg}]", len(adds), 1)
+    for r in loop_reads:
+        again = r in b.reachable(b.succs(r), removed_nodes=set(adds))
+        w = None
+        if again:
+            w = b.path_to(b.succs(r), r, removed_nodes=set(adds))
+        chk.ob(rid, fn, "every header line read is stored in the header list before the next one is read", not again,
+               "the header loop can read a line and go on to the next without adding it to the header list (a cap / filter on the fields kept): "
+               "a field sent after that point — X-Forwarded-For, Content-Length, Cookie — is invisible to the server although the request is served",
+               path=w, cfg=cfg, where=b.where(r))
+
+
+def request_address_fixed(chk, prog, rid, cfg=None):
+    """`Request.address` is what the parser derived from this request's own peer address and headers: nothing outside the request parser
+    assigns the field (a connection-scoped or cached address carries the first request's forwarded chain over to the next request on the
+    connection)."""
+    st = prog.structs.get("humphrey::http::request::Request", {}).get("fields", [])
+    idx = next((i for i, x in enumerate(st) if x["name"] == "address"), None)
+    chk.floor(f"Request.address field [{cfg}]", 0 if idx is None else 1, 1)
+    if idx is None:
+        return
+    n = 0
+    for p, b in sorted(prog.bodies.items()):
+        if not (p.startswith("humphrey::") or p.startswith("<humphrey::") or p.startswith("humphrey_server::")) or "promoted" in p:
+            continue
+        n += 1
+        for bi, blk in enumerate(b.blocks):
+            if blk.get("cleanup"):
+                continue
+            for s in blk["stmts"]:
+                if "pl" not in s or "rv" not in s:
+                    continue
+                rv = s["rv"]
+                cands = [(s["pl"], "assigned")]
+                if rv.get("k") in ("ref", "rawptr") and rv.get("mut", rv.get("k") == "rawptr") and rv.get("pl"):
+                    cands.append((rv["pl"], "mutably borrowed"))
+                for pl, how in cands:
+                    cur = b.local_ty(pl["l"]) or ""
+                    for e in pl["p"]:
+                        if e[0] == "f":
+                            base = cur
+                            while base.startswith("&"):
+                                base = base[1:].lstrip()
+                                if base.startswith("mut "):
+                                    base = base[4:]
+                            if base.endswith("http::request::Request") and e[1] == idx:
+                                chk.ob(rid, p, "Request.address is set by the request parser only", False,
+                                       f"`request.address` is {how} outside the parser: the address that is tested / logged need not be the one derived from this request",
+                                       where=b.where(bi), cfg=cfg)
+                            cur = e[2]
+                        elif e[0] == "d":
+                            while cur.startswith("&"):
+                                cur = cur[1:].lstrip()
+                                if cur.startswith("mut "):
+                                    cur = cur[4:]
+                                break
+                            if cur.startswith("std::boxed::Box<"):
+                                cur = cur[len("std::boxed::Box<"):-1]
+    chk.ob(rid, "humphrey", f"bodies scanned for writes to Request.address [{cfg}]", n >= 50, f"{n} bodies", cfg=cfg)
+
+
+class RuleFilter:
+    """Runs another property's rule set for the sake of a few of its rules: obligations of the rules in `keep` ({their id: id here}) are
+    forwarded to the real check, everything else (other rules, the owner's floors, its explanation texts) is dropped.  The owner keeps the
+    shape floors; the borrower only requires that the borrowed rules produced obligations at all."""
+
+    def __init__(self, chk, keep):
+        object.__setattr__(self, "_chk", chk)
+        object.__setattr__(self, "_keep", dict(keep))
+        object.__setattr__(self, "forwarded", 0)
+        object.__setattr__(self, "extra", {})
+
+    def ob(self, rule, *a, **k):
+        if rule in self._keep:
+            object.__setattr__(self, "forwarded", self.forwarded + 1)
+            return self._chk.ob(self._keep[rule], *a, **k)
+
+    def floor(self, *a, **k):
+        return None
+
+    def use(self, prog):
+        return self._chk.use(prog)
+
+    def __getattr__(self, name):
+        return getattr(object.__getattribute__(self, "_chk"), name)
+
+    def __setattr__(self, name, value):
+        return None
+
+
+def no_blind_consume(chk, prog, rid, prefix_rx, cfg=None):
+    """Input is skipped by reading it.  `BufRead::consume(n)` only drops bytes that are already in the buffer: with a constant `n` (the CRLF
+    after a chunk) it silently skips less when the buffer happens to end there — a flush of the peer between the chunk data and its CRLF, or
+    data that ends exactly at the buffer's capacity — and the next read starts in the wrong place.  A `consume` is accepted only when its
+    amount is derived from what `fill_buf` returned."""
+    n = 0
+    for p, b in sorted(prog.bodies.items()):
+        if not core.re.search(prefix_rx, p) or "promoted" in p:
+            continue
+        n += 1
+        for blk, t in b.calls_to(r"BufRead(<[^>]*>)?>?::consume$|AsyncBufReadExt(<[^>]*>)?>?::consume$|::consume$"):
+            if len(t["args"]) < 2:
+                continue
+            d = describe(prog, b, t["args"][1])
+            from_buf = core.desc_contains(d, lambda y: y[0] == "call" and core.re.search(r"::fill_buf$|::buffer$", y[1]) is not None)
+            chk.ob(rid, p, "consume(n) skips only what fill_buf showed to be buffered", from_buf,
+                   f"consume({panics_short(d)}) with an amount that does not come from fill_buf: when fewer bytes are buffered the rest is not skipped and the parser loses its place "
+                   "(a chunked body is cut short or mis-framed depending on how the peer's writes were segmented)", where=b.where(blk), cfg=cfg)
+    chk.ob(rid, "parsers", f"parser bodies scanned for consume() [{cfg}]", n >= 2, f"{n} bodies", cfg=cfg)
+
+
+def panics_short(d):
+    from .. import panics as _p
+    try:
+        return _p.short_desc(d)
+    except Exception:
+        return str(d)[:60]
